@@ -157,6 +157,14 @@ int main(void){
 			putchar('h');
 			for(i=0;i<n;i++){ unsigned char v=B[id].p[off+i]; putchar(hx[v>>4]); putchar(hx[v&15]); }
 			putchar('\n');
+		} else if(!strcmp(c,"CP")){
+			/* CP <dst> <src>: new buffer dst = exact-size copy of src (memcpy keeps sanitizer shadow: padding stays uninitialised) */
+			long id=atol(tok(&s)); long sid=atol(tok(&s));
+			if(id<0||id>=MAXBUF||sid<0||sid>=MAXBUF||!B[sid].used) die("badbuf");
+			if(B[id].used) free(B[id].p);
+			B[id].p=(unsigned char*)malloc(B[sid].n); B[id].n=B[sid].n; B[id].used=1;
+			if(B[sid].n) memcpy(B[id].p,B[sid].p,B[sid].n);
+			printf("ok\n");
 		} else if(!strcmp(c,"F")){
 			long id=atol(tok(&s)); if(id<0||id>=MAXBUF||!B[id].used) die("badbuf");
 			free(B[id].p); B[id].used=0; B[id].p=0; printf("ok\n");
